@@ -73,7 +73,7 @@ def record(sc, workdir, jit=False, timeout=120):
         env["STEEL_JIT"] = "false"
     full = dict(sc)
     full.setdefault("prelude", PRELUDE)
-    full.setdefault("watchdog_ms", 4000)
+    full.setdefault("watchdog_ms", 6000)
     try:
         with open(path, "w") as out:
             p = subprocess.run([VMTRACE, json.dumps(full)], stdout=out, stderr=subprocess.PIPE, env=env, timeout=timeout)
